@@ -1,5 +1,339 @@
-import KatdalModel.Model.DaskIndexer
+/-
+  C04 — Two-stage lazy indexing of dask arrays equals composed outer indexing, lazily.
+
+  "For any dask-backed array, first-stage selection, chain of transforms and second-stage index
+   made of integers, slices, boolean masks and integer sequences on any combination of axes,
+   indexing the lazy indexer returns exactly transform(array[first stage])[second stage] under
+   per-axis (outer) indexing, with the shape and dtype the indexer advertised beforehand ...
+   a request made of contiguous ranges reads exactly the stored chunks that overlap the requested
+   region, each once."
+
+  Model: KatdalModel/Model/DaskIndexer.lean (mirror of lazy_indexer.py + dask's index
+  normalisation).  Spec: Index.resolveAll / Index.composeAll / Index.oindexSel.
+-/
+import KatdalModel.Lemmas.Normalize
+import KatdalModel.Lemmas.Compose
 open Np Index DaskIx
+
 namespace C04
-theorem placeholder : (1 : Nat) = 1 := rfl
+
+/-! ### helper facts (kept here because they are specific to the statements below) -/
+
+theorem normInt_lt {n : Nat} {i : Int} {k : Nat} (h : normInt n i = .ok k) : k < n := by
+  unfold normInt at h
+  split at h
+  · simp only [Except.ok.injEq] at h; omega
+  · split at h
+    · simp only [Except.ok.injEq] at h; omega
+    · simp at h
+
+theorem normList_lt (n : Nat) : ∀ (l : List Int) (ks : List Nat), normList n l = .ok ks → ∀ k ∈ ks, k < n := by
+  intro l
+  induction l with
+  | nil => intro ks h; simp [normList] at h; subst h; simp
+  | cons i t ih =>
+    intro ks h
+    unfold normList at h
+    cases hi : normInt n i with
+    | error e => simp [hi, bind, Except.bind] at h
+    | ok k =>
+      cases hr : normList n t with
+      | error e => simp [hi, hr, bind, Except.bind] at h
+      | ok r =>
+        simp [hi, hr, bind, Except.bind, pure, Except.pure] at h
+        subst h
+        intro x hx
+        simp at hx
+        rcases hx with rfl | hx
+        · exact normInt_lt hi
+        · exact ih r hr x hx
+
+theorem nonzeroFrom_lt : ∀ (m : List Bool) (k : Nat), ∀ x ∈ nonzeroFrom k m, x < k + m.length := by
+  intro m
+  induction m with
+  | nil => intro k x hx; simp [nonzeroFrom] at hx
+  | cons b t ih =>
+    intro k x hx
+    cases b with
+    | true =>
+      simp [nonzeroFrom] at hx
+      rcases hx with rfl | hx
+      · simp only [List.length_cons]; omega
+      · have := ih (k + 1) x hx; simp only [List.length_cons]; omega
+    | false =>
+      simp [nonzeroFrom] at hx
+      have := ih (k + 1) x hx; simp only [List.length_cons]; omega
+
+theorem nonzero_lt (m : List Bool) : ∀ x ∈ nonzero m, x < m.length := by
+  intro x hx
+  have := nonzeroFrom_lt m 0 x hx
+  omega
+
+theorem rangeToSlice_start_nonneg {l : List Int} {a b c : Option Int}
+    (h : rangeToSlice l = .ok (a, b, c)) (hl : ∀ x ∈ l, 0 ≤ x) : ∀ v, a = some v → 0 ≤ v := by
+  intro v hv
+  unfold rangeToSlice at h
+  cases l with
+  | nil => simp at h; rw [← h.1] at hv; simp at hv
+  | cons x t =>
+    simp only at h
+    split at h
+    · simp at h
+    · split at h
+      · simp at h; rw [← h.1] at hv; simp at hv; subst hv; exact hl _ (List.mem_cons_self ..)
+      · split at h
+        · simp at h
+        · simp at h; rw [← h.1] at hv; simp at hv; subst hv; exact hl _ (List.mem_cons_self ..)
+
+theorem map_toNat_ofNat (l : List Nat) : (l.map Int.ofNat).map Int.toNat = l := by
+  induction l with
+  | nil => rfl
+  | cons a t ih => simp [ih]
+
+/-- simplification of a fancy index (`_simplify_index`) never changes what it selects -/
+theorem simplify_arr_resolve (n : Nat) (l : List Nat) (hl : ∀ k ∈ l, k < n) :
+    (simplify1 n (.arr l)).resolve n = .ok (.many l) := by
+  have hall : l.all (· < n) = true := by
+    simp only [List.all_eq_true, decide_eq_true_eq]; exact hl
+  cases hr : rangeToSlice (l.map Int.ofNat) with
+  | error e => simp only [simplify1, hr, DIx.resolve, hall, if_true]
+  | ok t =>
+    obtain ⟨a, b, c⟩ := t
+    have hbound : ∀ x ∈ l.map Int.ofNat, x < (n : Int) := by
+      intro x hx
+      simp at hx
+      obtain ⟨k, hk, rfl⟩ := hx
+      have := hl k hk
+      omega
+    have hsound := rangeToSlice_sound n _ a b c hr hbound
+    have hnonneg : ∀ x ∈ l.map Int.ofNat, 0 ≤ x := by
+      intro x hx; simp at hx; obtain ⟨k, _, rfl⟩ := hx; omega
+    have hstart := rangeToSlice_start_nonneg hr hnonneg
+    cases hn : normalizeSlice n a b c with
+    | none => simp only [simplify1, hr, hn, DIx.resolve, hall, if_true]
+    | some t' =>
+      obtain ⟨a', b', c'⟩ := t'
+      have hs := normalizeSlice_sound n a b c a' b' c' hn (by
+        intro v hv _
+        have := hstart v hv
+        omega)
+      simp only [simplify1, hr, hn, DIx.resolve, Ix.resolve, hs, hsound, map_toNat_ofNat]
+
+/-! ### Property theorems -/
+
+/-- `_range_to_slice` is sound (restated from the lemma file so that it is audited here). -/
+theorem c04_range_to_slice_sound (n : Nat) (l : List Int) (a b c : Option Int)
+    (h : rangeToSlice l = .ok (a, b, c)) (hn : ∀ x ∈ l, x < n) :
+    sliceList n a b c = some l :=
+  rangeToSlice_sound n l a b c h hn
+
+/-- **dask_getitem on one axis has numpy's per-axis meaning**, for every int, slice, mask and
+    integer list (sorted, unsorted, repeated, negative), outside the known-finding family
+    `daskSliceBug` (negative step with explicit start below `-n`). -/
+theorem c04_getitem_axis_partial (n : Nat) (ix : Ix) (hbug : daskSliceBug n ix = false) :
+    getitem1 n ix = ix.resolve n := by
+  unfold getitem1
+  cases ix with
+  | int i =>
+    simp only [normalizeIndex1, Ix.resolve]
+    cases hi : normInt n i with
+    | error e => simp [bind, Except.bind]
+    | ok k =>
+      have := normInt_lt hi
+      simp [bind, Except.bind, pure, Except.pure, simplify1, DIx.resolve, this]
+  | slice a b c =>
+    simp only [normalizeIndex1, Ix.resolve]
+    cases hn : normalizeSlice n a b c with
+    | none =>
+      have : sliceList n a b c = none := by
+        unfold normalizeSlice at hn
+        unfold sliceList
+        cases hi : sliceIndices n a b c with
+        | none => rfl
+        | some t =>
+          obtain ⟨s, e, st⟩ := t
+          simp only [hi] at hn
+          split at hn <;> simp at hn
+      simp [this, bind, Except.bind]
+    | some t =>
+      obtain ⟨a', b', c'⟩ := t
+      have hs := normalizeSlice_sound n a b c a' b' c' hn (by
+        intro v hv hc
+        cases c with
+        | none => simp at hc
+        | some cv =>
+          subst hv
+          simp only [daskSliceBug, decide_eq_false_iff_not, not_and, Option.getD_some] at hbug hc
+          have := hbug hc
+          omega)
+      simp only [bind, Except.bind, simplify1, DIx.resolve, Ix.resolve, hs]
+  | mask m =>
+    simp only [normalizeIndex1, Ix.resolve]
+    split
+    · rename_i hlen
+      simp only [bind, Except.bind]
+      exact simplify_arr_resolve n (nonzero m) (by intro k hk; have := nonzero_lt m k hk; omega)
+    · simp [bind, Except.bind]
+  | list l =>
+    simp only [normalizeIndex1, Ix.resolve]
+    cases hl : normList n l with
+    | error e => simp [bind, Except.bind]
+    | ok ks =>
+      simp only [bind, Except.bind, pure, Except.pure]
+      exact simplify_arr_resolve n ks (normList_lt n l ks hl)
+
+/-- the unguarded statement is false on the current dask: witness `x[-7::-2]` on length 5 -/
+theorem c04_getitem_axis_full_is_false :
+    getitem1 5 (.slice (some (-7)) none (some (-2))) ≠ Ix.resolve 5 (.slice (some (-7)) none (some (-2))) := by
+  decide
+
+/-- no index in `ixs` on its axis is in the known-finding family -/
+def noBug : List Nat → List Ix → Bool
+  | n :: ns, i :: is => !daskSliceBug n i && noBug ns is
+  | _, _ => true
+
+theorem getitemAll_eq : ∀ (shape : List Nat) (ixs : List Ix), noBug shape ixs = true →
+    getitemAll shape ixs = resolveAll shape ixs := by
+  intro shape
+  induction shape with
+  | nil => intro ixs _; cases ixs <;> rfl
+  | cons n ns ih =>
+    intro ixs h
+    cases ixs with
+    | nil => rfl
+    | cons i is =>
+      simp only [noBug, Bool.and_eq_true, Bool.not_eq_true'] at h
+      simp only [getitemAll, resolveAll, c04_getitem_axis_partial n i h.1, ih is h.2]
+
+/-- **dask_getitem(x, index) = x[index] under outer indexing**, all axes. -/
+theorem c04_getitem_partial (shape : List Nat) (ix : List Ix)
+    (h : ∀ p, padIx shape.length ix = .ok p → noBug shape p = true) :
+    daskGetitem shape ix = (do let p ← padIx shape.length ix; resolveAll shape p) := by
+  unfold daskGetitem
+  cases hp : padIx shape.length ix with
+  | error e => rfl
+  | ok p => simp only [bind, Except.bind, getitemAll_eq shape p (h p hp)]
+
+/-- **Two-stage indexing**: whenever the indexer answers, (1) the shape it advertised is the
+    shape of `array[first stage]`, (2) the result shape is the shape of the second stage applied
+    to that, and (3) every element `js` of the result is the source element that indexing twice
+    with numpy's outer semantics reads — i.e. `indexer[k2] = T(x[k1])[k2]` for any elementwise `T`
+    (transforms commute with outer indexing: `Index.oindexSel_map`). -/
+theorem c04_two_stage {α} (a : NDArr α) (k1 k2 : List Ix) (s1 s2 : List Sel) (shape1 : List Nat) (c : List Sel)
+    (h1 : daskGetitem a.shape k1 = .ok s1)
+    (h2 : daskGetitem (selShape s1) k2 = .ok s2)
+    (h : twoStage a.shape k1 k2 = .ok (shape1, c)) :
+    shape1 = (oindexSel a s1).shape ∧
+    (oindexSel a c).shape = (oindexSel (oindexSel a s1) s2).shape ∧
+    ∀ js, inBounds (oindexSel a c).shape js →
+      (oindexSel a c).get js = (oindexSel (oindexSel a s1) s2).get js := by
+  unfold twoStage at h
+  simp only [h1, h2, bind, Except.bind] at h
+  cases hc : composeAll s1 s2 with
+  | error e => simp [hc] at h
+  | ok c' =>
+    simp [hc, pure, Except.pure] at h
+    obtain ⟨rfl, rfl⟩ := h
+    obtain ⟨hs, hg⟩ := oindexSel_comp a s1 s2 c' hc
+    exact ⟨rfl, hs.symm, fun js hjs => (hg js hjs).symm⟩
+
+/-- nesting: an indexer over an indexer is again outer indexing by the composition (the
+    composition lemma applied at each level; three levels as used by katdal's flags indexer on top
+    of the raw-flags indexer).  Joint retrieval `get([a, b], k)` has no separate path in the model
+    (each array is computed by the same function); it is covered by the correspondence run only. -/
+theorem c04_nest {α} (a : NDArr α) (s1 s2 s3 c23 c : List Sel)
+    (h23 : composeAll s2 s3 = .ok c23) (h : composeAll s1 c23 = .ok c) :
+    ∀ js, inBounds (oindexSel a c).shape js →
+      (oindexSel a c).get js = (oindexSel (oindexSel (oindexSel a s1) s2) s3).get js := by
+  intro js hjs
+  obtain ⟨hsA, hgA⟩ := oindexSel_comp a s1 c23 c h
+  obtain ⟨hsB, hgB⟩ := oindexSel_comp (oindexSel a s1) s2 s3 c23 h23
+  rw [← hgA js hjs]
+  have hjs' : inBounds (oindexSel (oindexSel a s1) c23).shape js := by rw [hsA]; exact hjs
+  exact (hgB js hjs').symm
+
+/-! ### Read set -/
+
+theorem chunksOverlapping_go_mem (lo hi : Nat) : ∀ (sizes : List Nat) (i off c : Nat),
+    c ∈ chunksOverlapping.go lo hi sizes i off ↔
+      ∃ k, k < sizes.length ∧ c = i + k ∧
+        off + (sizes.take k).sum < hi ∧ lo < off + (sizes.take (k + 1)).sum ∧ lo < hi := by
+  intro sizes
+  induction sizes with
+  | nil => intro i off c; simp [chunksOverlapping.go]
+  | cons s t ih =>
+    intro i off c
+    unfold chunksOverlapping.go
+    constructor
+    · intro h
+      split at h
+      · rename_i hcond
+        simp at h
+        rcases h with rfl | h
+        · exact ⟨0, by simp, by simp, by simpa using hcond.1, by simpa using hcond.2.1, hcond.2.2⟩
+        · obtain ⟨k, hk, hc, h1, h2, h3⟩ := (ih (i + 1) (off + s) c).mp h
+          exact ⟨k + 1, by simpa using hk, by omega, by simp; omega, by simp; omega, h3⟩
+      · obtain ⟨k, hk, hc, h1, h2, h3⟩ := (ih (i + 1) (off + s) c).mp h
+        exact ⟨k + 1, by simpa using hk, by omega, by simp; omega, by simp; omega, h3⟩
+    · rintro ⟨k, hk, hc, h1, h2, h3⟩
+      cases k with
+      | zero =>
+        have hcond : off < hi ∧ lo < off + s ∧ lo < hi := ⟨by simpa using h1, by simpa using h2, h3⟩
+        simp [hcond, hc]
+      | succ k =>
+        have hin : c ∈ chunksOverlapping.go lo hi t (i + 1) (off + s) :=
+          (ih (i + 1) (off + s) c).mpr ⟨k, by simpa using hk, by omega, by simp at h1; omega, by simp at h2; omega, h3⟩
+        split
+        · exact List.mem_cons_of_mem _ hin
+        · exact hin
+
+/-- **Read set of a contiguous request**: chunk `c` of an axis chunked into `sizes` is in the
+    model's read set for the region `[lo, hi)` iff the chunk's extent `[start_c, start_c + size_c)`
+    intersects the region — exactly the overlapping chunks, each listed once (the list is
+    produced by a single left-to-right pass, see `chunksOverlapping_nodup`). -/
+theorem c04_readset (sizes : List Nat) (lo hi c : Nat) :
+    c ∈ chunksOverlapping sizes lo hi ↔
+      c < sizes.length ∧ (sizes.take c).sum < hi ∧ lo < (sizes.take (c + 1)).sum ∧ lo < hi := by
+  unfold chunksOverlapping
+  rw [chunksOverlapping_go_mem]
+  constructor
+  · rintro ⟨k, hk, rfl, h1, h2, h3⟩
+    simp at h1 h2 ⊢
+    exact ⟨hk, h1, h2, h3⟩
+  · rintro ⟨h0, h1, h2, h3⟩
+    exact ⟨c, h0, by simp, by simpa using h1, by simpa using h2, h3⟩
+
+theorem chunksOverlapping_go_sorted (lo hi : Nat) : ∀ (sizes : List Nat) (i off : Nat),
+    (chunksOverlapping.go lo hi sizes i off).Pairwise (· < ·) ∧
+    ∀ c ∈ chunksOverlapping.go lo hi sizes i off, i ≤ c := by
+  intro sizes
+  induction sizes with
+  | nil => intro i off; simp [chunksOverlapping.go]
+  | cons s t ih =>
+    intro i off
+    unfold chunksOverlapping.go
+    obtain ⟨hp, hge⟩ := ih (i + 1) (off + s)
+    split
+    · refine ⟨List.pairwise_cons.mpr ⟨fun c hc => by have := hge c hc; omega, hp⟩, ?_⟩
+      intro c hc
+      simp at hc
+      rcases hc with rfl | hc
+      · omega
+      · have := hge c hc; omega
+    · exact ⟨hp, fun c hc => by have := hge c hc; omega⟩
+
+/-- each overlapping chunk is listed once, in increasing order -/
+theorem c04_readset_each_once (sizes : List Nat) (lo hi : Nat) :
+    (chunksOverlapping sizes lo hi).Pairwise (· < ·) :=
+  (chunksOverlapping_go_sorted lo hi sizes 0 0).1
+
+/-! ### Non-vacuity -/
+
+example : noBug [5, 4] [.slice (some (-3)) none (some (-2)), .list [0, 2]] = true := by decide
+example : daskGetitem [5, 4] [.mask [true, false, true, false, true], .list [3, 1]]
+    = .ok [.many [0, 2, 4], .many [3, 1]] := by decide
+example : twoStage [6, 4] [.mask [true, false, true, true, false, true]] [.list [3, 1], .int (-1)]
+    = .ok ([4, 4], [.many [5, 2], .one 3]) := by decide
+example : chunksOverlapping [2, 3, 1] 1 5 = [0, 1] := by decide
+
 end C04
